@@ -123,6 +123,7 @@ def scenario():
         "multifile": st.booleans(), "overwrite": st.booleans(), "format": st.sampled_from(["yaml", "json", "parser_mode"]),
         "pre_target": st.one_of(st.none(), st.sampled_from(["", "old: content\n", "\x00binary\xff"])),
         "pre_sub": st.one_of(st.none(), st.sampled_from(["", "previous sub file\n"])),
+        "pre_sub_which": st.sampled_from(["both", "both", "dsub", "gsub"]),  # which of the two sub-file names already exists in the target directory
         "pre_other": st.booleans(),
         "pf": st.booleans(), "pre_pf": st.one_of(st.none(), st.just("older vocab\n")),
         # how the caller spells the target (all name the same file), how the main config refers to its sub-files, and whether the
@@ -283,8 +284,9 @@ def run_case(ctx, sc):
                     f.write(sc["pre_target"])
             if sc["pre_sub"] is not None:
                 for name in ("dsub", "gsub"):
-                    with open(os.path.join(out, name + sc["sub_ext"]), "w") as f:
-                        f.write(sc["pre_sub"])
+                    if sc.get("pre_sub_which", "both") in ("both", name):
+                        with open(os.path.join(out, name + sc["sub_ext"]), "w") as f:
+                            f.write(sc["pre_sub"])
             if sc.get("pre_pf") is not None:
                 with open(os.path.join(out, "vocab.txt"), "w") as f:
                     f.write(sc["pre_pf"])
@@ -339,6 +341,9 @@ def run_case(ctx, sc):
             # 2. an existing target without overwrite is refused
             if not sc["overwrite"] and sc["pre_target"] is not None and outcome == "saved":
                 ctx.finding(f"C18/existing-target-not-refused/{where}", det)
+            # 2b. a save that is refused because a file exists (no fault injected) is all-or-nothing as well: nothing has been created
+            if kind == "none" and not sc["overwrite"] and outcome != "saved" and before and changed and "Refusing to overwrite" in err:
+                ctx.finding(f"C18/refused-save-left-files-{'truncated-or-changed' if pre_changed else 'created'}/{where}", det)
             # 3. all-or-nothing when the configuration is invalid or cannot be serialised
             config_fault = kind in ("invalid", "unserialisable-any", "binary-path-content") or (kind == "serializer-fails-on-call" and SER["count"] >= arg)
             if config_fault and kind == "serializer-fails-on-call" and outcome == "saved":
